@@ -13,7 +13,6 @@ CONSTANTS StrictA,    \* results and content must follow layer A (else the model
 Trace == ndJsonDeserialize("trace.ndjson")
 TraceT == Trace[1].cfg.T
 INSTANCE TreeInv WITH T <- TraceT
-MS == INSTANCE MapSlabTree WITH T <- TraceT     \* layer C (slab level): compared with the observed trees as drift, never a verdict
 
 VARIABLES l, dict, rid, typ, limit, committed, known, lcalls
 tvars == <<l, dict, rid, typ, limit, committed, known, lcalls>>
@@ -27,25 +26,50 @@ ObsDict(r) == LET a == Root(r).abs  n == Len(a) \div 2 IN
 ObsPairs(r) == LET a == Root(r).abs IN {<<a[2 * i - 1].v, a[2 * i].v>> : i \in 1..(Len(a) \div 2)}
 ObsKeys(r) == LET a == Root(r).abs IN [i \in 1..(Len(a) \div 2) |-> a[2 * i - 1].v]
 
-\* observed forest -> model tree (only when there is no collision group anywhere)
-RECURSIVE NoGroups(_), TreeOfM(_)
-NoGroups(n) == IF n.k = "md" THEN n.els[1].t = "h" /\ \A i \in 1..Len(n.els[1].el) : n.els[1].el[i].t = "s"
-               ELSE \A i \in 1..Len(n.c) : NoGroups(n.c[i])
-TreeOfM(n) == IF n.k = "md"
-              THEN MS!Data([i \in 1..Len(n.els[1].el) |-> [d |-> n.els[1].hk[i], key |-> n.els[1].el[i].k[1].v, sz |-> n.els[1].el[i].sz]])
-              ELSE MS!Meta([i \in 1..Len(n.c) |-> TreeOfM(n.c[i])])
-ElemOfKey(t, kid) == LET f == MS!Flatten(t) IN f[CHOOSE i \in 1..Len(f) : f[i].key = kid]
-HasKeyT(t, kid) == LET f == MS!Flatten(t) IN \E i \in 1..Len(f) : f[i].key = kid
-LayerC(r, prev) ==
-  LET t == TreeOfM(Forest(prev))  cur == TreeOfM(Forest(r)) IN
-  CASE r.ev = "MSet" -> IF HasKeyT(cur, r.k.id) THEN MS!TSet(t, ElemOfKey(cur, r.k.id)) ELSE t
-    [] r.ev = "MRemove" -> IF HasKeyT(t, r.k.id) THEN MS!TRemove(t, ElemOfKey(t, r.k.id).d) ELSE t
-    [] r.ev = "MPop" -> MS!TPop(t)
-    [] OTHER -> t
+\* ---- layer C, composed (MapFull = slab tree x collision groups): the tree predicted from the previous observation is compared
+\* with the observed one as drift, never a verdict.  Only for table-driven digests (small integers: no rank compression).
+TraceKSz == LET S == {i \in 1..Len(Trace) : Trace[i].k.sz > 0} IN IF S = {} THEN 5 ELSE Trace[CHOOSE i \in S : TRUE].k.sz
+\* digest table seen in the previous record (resident keys) extended by the key of the current operation
+DigTable(r, prev) ==
+  LET a == Root(prev).abs  n == Len(a) \div 2
+      ks == {a[2 * i - 1].v : i \in 1..n} \cup {r.k.id} IN
+  [k \in ks |-> IF k = r.k.id /\ Len(r.kd) = 4 THEN r.kd
+                 ELSE Root(prev).kds[CHOOSE i \in 1..n : a[2 * i - 1].v = k]]
+\* (the collision limit plays no role here: drift is compared for accepted requests only)
+MF(dv) == INSTANCE MapFull WITH T <- TraceT, KSzF <- TraceKSz, LimitF <- 255, digv <- dv
+MTd(dv) == INSTANCE MapTree WITH Keys <- {}, DigSet <- {}, KSz <- TraceKSz, VSizes <- {}, Limit <- 255,
+                                 MaxInlineElem <- MaxInlineMapElem(TraceT), dig <- dv, root <- <<>>
+\* observed element / element list -> MapTree records (a value is represented by its stored size)
+RECURSIVE ObsG(_), ObsEls(_)
+ObsG(me) == IF me.t = "s" THEN [t |-> "s", key |-> me.k[1].v, v |-> me.v[1].sz]
+            ELSE IF me.t = "g" THEN [t |-> "g", els |-> ObsEls(me.els[1])]
+            ELSE [t |-> "x", els |-> ObsEls(me.x[1].els[1])]
+ObsEls(els) == IF els.t = "h" THEN [t |-> "h", lvl |-> els.lvl, hk |-> els.hk, el |-> [i \in 1..Len(els.el) |-> ObsG(els.el[i])]]
+               ELSE [t |-> "l", lvl |-> els.lvl, el |-> [i \in 1..Len(els.el) |-> ObsG(els.el[i])]]
+RECURSIVE TreeOfF(_, _)
+TreeOfF(n, dv) ==
+  IF n.k = "md"
+  THEN [k |-> "d", e |-> [i \in 1..Len(n.els[1].el) |->
+                            LET g == ObsG(n.els[1].el[i]) IN [d |-> n.els[1].hk[i], sz |-> MTd(dv)!ElemSize(g), g |-> g]]]
+  ELSE [k |-> "m", c |-> [i \in 1..Len(n.c) |-> TreeOfF(n.c[i], dv)]]
+\* the observed shape with the sizes the real code reports
+RECURSIVE ObsShape(_)
+ObsShape(n) == IF n.k = "md" THEN [k |-> "d", e |-> [i \in 1..Len(n.els[1].el) |-> <<n.els[1].hk[i], n.els[1].el[i].sz>>]]
+               ELSE [k |-> "m", c |-> [i \in 1..Len(n.c) |-> ObsShape(n.c[i])]]
+RECURSIVE PlainMapForest(_)      \* only slabs of a map (no nested containers inside: their sizes are not modelled by layer C)
+PlainMapForest(n) == n.k \in {"md", "mm"} /\ (n.k = "mm" => \A i \in 1..Len(n.c) : PlainMapForest(n.c[i]))
+\* (arguments of recursive operators must be constant-level for SANY: the key and the value size are passed as bound variables)
+LayerCAgrees(r, prev) ==
+  LET dv == DigTable(r, prev)  t == TreeOfF(Forest(prev), dv)  obs == ObsShape(Forest(r)) IN
+  \E kk \in {r.k.id}, vv \in {r.e.sz} :
+    CASE r.ev = "MSet" -> MF(dv)!FShape(MF(dv)!FSet(t, kk, vv).t) = obs
+      [] r.ev = "MRemove" -> MF(dv)!FShape(MF(dv)!FRemove(t, kk).t) = obs
+      [] r.ev = "MPop" -> obs = [k |-> "d", e |-> <<>>]
+      [] OTHER -> TRUE
 Drifted(r) ==
   IF l = 1 \/ r.res.class # "ok" \/ Trace[l - 1].t # r.t \/ r.ev \notin {"MSet", "MRemove", "MPop"}
-     \/ Len(r.kd) # 4 \/ r.kd[1] >= 1000000 \/ ~NoGroups(Forest(Trace[l - 1])) \/ ~NoGroups(Forest(r)) THEN 0
-  ELSE IF MS!Shape(LayerC(r, Trace[l - 1])) = MS!Shape(TreeOfM(Forest(r))) THEN 0 ELSE 1
+     \/ Len(r.kd) # 4 \/ r.kd[1] >= 1000000 \/ ~PlainMapForest(Forest(Trace[l - 1])) \/ ~PlainMapForest(Forest(r)) THEN 0
+  ELSE IF LayerCAgrees(r, Trace[l - 1]) THEN 0 ELSE 1
 
 Init == l = 1 /\ dict = <<>> /\ rid = 0 /\ typ = "" /\ limit = 255 /\ committed = <<>> /\ known = FALSE /\ lcalls = 0
 
